@@ -312,3 +312,11 @@ def pop_order(h, callee_regex):
                 else:
                     out.append((c["ln"], "unrelated"))
     return out
+
+
+def inside_loop(h, node):
+    """node sits inside a loop (for / while / loop) or a closure of the body: it may then run zero times"""
+    for l in find_all(h["body"], lambda z: z.get("k") in ("loop", "closure") or (z.get("k") == "match" and z.get("src") == "ForLoopDesugar")):
+        if l is not node and find_all(l, lambda z: z is node):
+            return True
+    return False
